@@ -69,7 +69,8 @@ func runC15(c *core.Ctx) {
 		return
 	}
 	g := eng.ErrNilOf("NativeService.Invoke", invoke)
-	commits := ir.CallsTo(hit, commit)
+	// directly, or through a private helper that finishes the successful transaction
+	commits := ir.CallsThrough(hit, func(ci ssa.CallInstruction) bool { return ir.CalleeIs(ci, commit) }, 2)
 	c.Floor("CacheDB.Commit calls in HandleInvokeTransaction", len(commits), 1)
 	eng.Dominates(c, "C15.success≺commit", hit, g, ir.CallSinks(commits, "CacheDB.Commit"), "CacheDB.Commit", nil)
 	enObj, err := c.P.Obj("native/event", "ExecuteNotify")
@@ -79,9 +80,34 @@ func runC15(c *core.Ctx) {
 	}
 	stState := fieldStores(hit, enObj.Type(), "State")
 	stNotify := fieldStores(hit, enObj.Type(), "Notify")
+	siteState, siteNotify := stState, stNotify
+	if len(stState)+len(stNotify) == 0 {
+		// the success bookkeeping may sit in a same-package helper: the stores are judged there,
+		// the helper call is the site that must be dominated in HandleInvokeTransaction
+		hosts, releaseHosts := hostsWithHelpers(hit)
+		defer releaseHosts()
+		for _, h := range hosts[1:] {
+			s1, s2 := fieldStores(h, enObj.Type(), "State"), fieldStores(h, enObj.Type(), "Notify")
+			if len(s1)+len(s2) == 0 {
+				continue
+			}
+			stState, stNotify = append(stState, s1...), append(stNotify, s2...)
+			for _, in := range append(append([]ssa.Instruction{}, s1...), s2...) {
+				if cl := callIn(hit, in); cl != nil {
+					if len(s1) > 0 {
+						siteState = append(siteState, cl)
+					}
+					if len(s2) > 0 {
+						siteNotify = append(siteNotify, cl)
+					}
+					break
+				}
+			}
+		}
+	}
 	c.Floor("stores to notify.State/Notify", len(stState)+len(stNotify), 2)
-	eng.Dominates(c, "C15.success≺events", hit, g, instrSinks(stState, "notify.State = …"), "store notify.State", nil)
-	eng.Dominates(c, "C15.success≺events", hit, g, instrSinks(stNotify, "notify.Notify = append(…)"), "store notify.Notify", nil)
+	eng.Dominates(c, "C15.success≺events", hit, g, instrSinks(siteState, "notify.State = …"), "store notify.State", nil)
+	eng.Dominates(c, "C15.success≺events", hit, g, instrSinks(siteNotify, "notify.Notify = append(…)"), "store notify.Notify", nil)
 	// the only State store writes CONTRACT_STATE_SUCCESS
 	for _, in := range stState {
 		k, ok := ir.ConstInt(in.(*ssa.Store).Val)
